@@ -178,6 +178,8 @@ pub fn add_seen(rep: &mut Report, s: &Seen) {
     rep.count("model_inits", s.inits);
     rep.count("submodel_inits", s.submodels);
     rep.count("clock_synchronisations", s.syncs);
+    rep.count("causally_ordered_send_pairs_checked", s.causal_pairs);
+    rep.count("causally_ordered_send_pairs_via_other_models", s.causal_pairs_indirect);
 }
 
 pub fn run_family(rep: &mut Report, opts: &Opts, fr: &FamilyRun) {
@@ -201,6 +203,12 @@ pub fn run_family(rep: &mut Report, opts: &Opts, fr: &FamilyRun) {
             let tr = bench::run(&spec, ex, &ro);
             let (findings, seen) = checks::check_trace(&tr, pred.as_ref());
             rep.evaluations += 1;
+            if fr.prop == "C02" && seen.causal_pairs_indirect > 0 && findings.is_empty() && rep.counters.get("oracle_selftest_tampered_logs").copied().unwrap_or(0) < 40 {
+                if let Some(fired) = checks::c02_selftest(&tr) {
+                    rep.count("oracle_selftest_tampered_logs", 1);
+                    rep.count("oracle_selftest_tampered_logs_flagged", fired as u64);
+                }
+            }
             add_seen(rep, &seen);
             rep.count(&format!("executions_{}", ex.label), 1);
             if (fr.nontrivial)(&seen, &spec) {
@@ -259,6 +267,27 @@ pub fn c01(opts: &Opts) -> Report {
     }
     if want(opts, "dag") {
         run_family(&mut rep, opts, &FamilyRun { prop: "C01", part: "dag", cases: opts.n(if cfg!(miri) { 2 } else { 120 }, 3000), gen: &|s| gen::gen_dag(s, &dopt), set: ExecSet::Full, pools: &[TIME_SITES, EXECUTOR_SITES], nontrivial: &|s, _| s.time_moves > 0 && s.handlers > 0, predict: true, also: &[] });
+    }
+    rep
+}
+
+pub fn c02(opts: &Opts) -> Report {
+    let mut rep = Report::new("C02");
+    if want(opts, "dag") {
+        // Capacities 1-3: senders are suspended on full mailboxes.
+        let mut dopt = dag_opts(opts);
+        dopt.sched = false;
+        run_family(&mut rep, opts, &FamilyRun { prop: "C02", part: "dag", cases: opts.n(if cfg!(miri) { 4 } else { 400 }, 10000), gen: &|s| gen::gen_dag(s, &dopt), set: ExecSet::Full, pools: &[CHANNEL_SITES, EXECUTOR_SITES], nontrivial: &|s, _| s.causal_pairs_indirect > 0, predict: true, also: &[] });
+    }
+    if want(opts, "roomy") {
+        let mut dopt = dag_opts(opts);
+        dopt.max_cap = 16;
+        dopt.sched = false;
+        run_family(&mut rep, opts, &FamilyRun { prop: "C02", part: "roomy", cases: opts.n(if cfg!(miri) { 2 } else { 200 }, 5000), gen: &|s| gen::gen_dag(s, &dopt), set: ExecSet::Full, pools: &[CHANNEL_SITES], nontrivial: &|s, _| s.causal_pairs_indirect > 0, predict: true, also: &[] });
+    }
+    if want(opts, "mt") {
+        let dopt = dag_opts(opts);
+        run_family(&mut rep, opts, &FamilyRun { prop: "C02", part: "mt", cases: opts.n(if cfg!(miri) { 3 } else { 250 }, 8000), gen: &|s| gen::gen_dag(s, &dopt), set: ExecSet::MtHeavy, pools: &[CHANNEL_SITES], nontrivial: &|s, _| s.causal_pairs_indirect > 0, predict: true, also: &[] });
     }
     rep
 }
